@@ -218,7 +218,11 @@ class Gen:
         n = r.randint(1, MAX_Q)
         specs = [rand_spec(r, n, self.gset) for _ in range(r.randint(0, 6))]
         enh = r.random() < self.cfg["enh"]
-        self.add("new", {"n": n, "enh": enh, "gates": specs}, [], {"n": n, "enh": enh})
+        arg = {"n": n, "enh": enh, "gates": specs}
+        if r.random() < 0.3:
+            # user-given qubit names from a tiny pool: different circuits share names, at the same or at other indices
+            arg["names"] = r.sample(["a", "b", "c", "t", "x.0", "x.1", "anc_0"], n)
+        self.add("new", arg, [], {"n": n, "enh": enh})
         return True
 
     def b_random(self):
@@ -425,16 +429,24 @@ def generate_lifetime(seed, tier, nseg=None, canaries=None):
 # ------------------------------------------------------------------ execution
 
 
-def build(qc, spec):
+def name_of(names, i):
+    """the name the HARNESS remembers for qubit i (last one given wins), or the index itself"""
+    for nm in reversed(list(names)):
+        if names[nm] == i:
+            return nm
+    return i
+
+
+def build(qc, spec, names=None):
     """issue one gate through the library's builder API"""
     from qlasskit.qcircuit import gates
 
     g, w, p = spec["g"], spec["w"], spec.get("p")
-    if spec.get("by_name") and g not in ("I", "P"):  # I and P go through append(), which takes indices only
-        try:
-            w = [qc.get_key_by_index(i) for i in w]
-        except Exception:
-            w = spec["w"]  # a qubit without a name: fall back to indices
+    if spec.get("by_name") and g not in ("I", "P") and names is not None:
+        # I and P go through append(), which takes indices only. The names are the ones the harness
+        # remembers for these qubits (taken from the circuit when it entered the pool, updated only by
+        # explicit naming calls): a composition operator that silently rebinds a name sends the gate elsewhere
+        w = [name_of(names, i) for i in w]
     if g == "BARRIER":
         qc.barrier()
     elif g == "H":
@@ -509,7 +521,7 @@ def run_segment(plan, ctx, detail=False, table=None):
 
     cfg, ops = plan["cfg"], plan["ops"]
     random.seed(cfg.get("rseed", 0))
-    objs, model, sfp = {}, {}, {}
+    objs, model, sfp, names = {}, {}, {}, {}
     records = []
     violation = None
     probes = {}
@@ -548,7 +560,12 @@ def run_segment(plan, ctx, detail=False, table=None):
         n_before = len(objs[tgt].gates) if tgt in objs else 0
         try:
             if k == "new":
-                qc = (QCircuitEnhanced if a["enh"] else QCircuit)(a["n"])
+                if a.get("names"):
+                    qc = (QCircuitEnhanced if a["enh"] else QCircuit)(0)
+                    for nm in a["names"]:
+                        qc.add_qubit(nm)
+                else:
+                    qc = (QCircuitEnhanced if a["enh"] else QCircuit)(a["n"])
                 for s in a["gates"]:
                     build(qc, s)
                 new_obj, new_model = qc, unitary_of_specs(a["gates"], a["n"])
@@ -624,7 +641,7 @@ def run_segment(plan, ctx, detail=False, table=None):
                 mutated = tgt
                 U = model[tgt]
                 for s in a["gates"]:
-                    build(objs[tgt], s)
+                    build(objs[tgt], s, names.get(tgt))
                     if s["g"] != "BARRIER":
                         U = apply(U, spec_matrix(s), s["w"], objs[tgt].num_qubits)
                 new_model = U
@@ -636,10 +653,7 @@ def run_segment(plan, ctx, detail=False, table=None):
                 mutated = tgt
                 wl_ = list(a["wl"])
                 if a.get("by_name"):
-                    try:
-                        wl_ = [objs[tgt].get_key_by_index(i) for i in wl_]
-                    except Exception:
-                        wl_ = list(a["wl"])
+                    wl_ = [name_of(names[tgt], i) for i in wl_]
                 objs[tgt].qft(tuple(wl_) if a.get("as_tuple") else list(wl_))
                 objs[tgt].iqft(tuple(wl_) if a.get("as_tuple") else list(wl_))
                 new_model = model[tgt]
@@ -677,6 +691,7 @@ def run_segment(plan, ctx, detail=False, table=None):
                 objs.pop(tgt, None)
                 model.pop(tgt, None)
                 sfp.pop(tgt, None)
+                names.pop(tgt, None)
                 gc.collect()
             else:
                 raise RuntimeError("unknown op " + k)
@@ -729,6 +744,7 @@ def run_segment(plan, ctx, detail=False, table=None):
                     if objs[tgt].num_qubits > MAX_Q + 2:
                         raise RuntimeError("too wide for the model")
                     model[tgt] = unitary_of_circuit(objs[tgt])
+                    names[tgt] = dict(objs[tgt].qubit_map)  # explicit naming calls: the harness follows
                 except Exception:
                     objs.pop(tgt, None)
                     model.pop(tgt, None)
@@ -743,8 +759,11 @@ def run_segment(plan, ctx, detail=False, table=None):
             if new_obj is not None:
                 objs[oid] = new_obj
                 model[oid] = new_model
+                names[oid] = dict(new_obj.qubit_map)  # trusted at creation
             elif mutated is not None and new_model is not None:
                 model[mutated] = new_model
+                if k == "add_qubit":
+                    names[mutated] = dict(objs[mutated].qubit_map)
         elif mutated is not None and mutated in objs and violation is None:
             # a failed / refused call: the statement is silent about the target; re-synchronise
             try:
